@@ -20,8 +20,11 @@ Inductive ract :=
                                               between this point and the next observation *)
 | RObs (o : obs).
 
-Inductive case := Hist (id : N) (univ : list key) (progs : list (N * prog)) (acts : list ract).
-Definition case_id c := match c with Hist id _ _ _ => id end.
+Inductive case :=
+| Hist (id : N) (univ : list key) (progs : list (N * prog)) (acts : list ract)
+(* late registration under churn: final contents, and per handler (kept until quiescence?, its whole stream) *)
+| Churn (id : N) (final : list (key * N)) (streams : list (bool * list oev)).
+Definition case_id c := match c with Hist id _ _ _ => id | Churn id _ _ => id end.
 
 Definition prog_of (ps : list (N * prog)) (n : N) : prog :=
   match find (fun x => N.eqb (fst x) n) ps with
@@ -175,8 +178,23 @@ Definition reval (acts : list ract) : rst :=
   fold_left rstep acts {| r_w := w0; r_trace := []; r_seen := []; r_hist := []; r_hyp := true; r_model := true; r_prop := true |}.
 End Eval.
 
+(* every stream is a per-key well-formed chain from the empty view (initial Adds first, no gap, nothing for an
+   unknown key); a handler kept until quiescence replays to the final contents *)
+Definition churn_ok (final : list (key * N)) (streams : list (bool * list oev)) : bool :=
+  forallb (fun ks =>
+    stream_wf fempty (snd ks) &&
+    (negb (fst ks) ||
+     (forallb (fun kv => optN_eqb (replay (snd ks) (fst kv)) (Some (snd kv))) final &&
+      forallb (fun e => match replay (snd ks) (oev_key e) with
+                        | Some _ => memb (oev_key e) (map fst final) | None => true end) (snd ks)))) streams.
+
 Definition eval_case (c : case) : rst :=
-  match c with Hist _ u ps acts => reval u (prog_of ps) acts end.
+  match c with
+  | Hist _ u ps acts => reval u (prog_of ps) acts
+  | Churn _ final streams =>
+      {| r_w := w0; r_trace := []; r_seen := []; r_hist := []; r_hyp := true; r_model := true;
+         r_prop := churn_ok final streams |}
+  end.
 
 (* model_ok: the model predicts every observation (state, lookups, per-key event streams, and the set of
    inputs the real code recomputed on each secondary event) *)
